@@ -54,7 +54,7 @@ fn check_mbap(v: &VerifIo, tx: u16, unit: u8, pdu: &[u8]) {
     }
 }
 
-//@ props: C17 C01 C02
+//@ props: C17 C01~ C02~
 //@ peer: yes
 //@ timeout: 1500
 //@ fns: server::task::SessionTask::handle_frame (whole), server::request::Request::parse, Request::get_reply, server::handler::ServerHandlerMap::get, common::frame::FrameWriter::format_reply, common::phys::PhysLayer::write
@@ -94,7 +94,7 @@ fn c17_glue_write_register_unit_filter() {
     std::mem::forget((io, s, ctx, h));
 }
 
-//@ props: C17 C01 C02
+//@ props: C17 C01~ C02~
 //@ peer: yes
 //@ timeout: 1500
 //@ fns: server::task::SessionTask::handle_frame, SessionTask::reply_with_error, server::request::Request::parse (error path)
@@ -150,7 +150,7 @@ fn unknown_function(fc: u8) {
     std::mem::forget((io, s, ctx, h));
 }
 
-//@ props: C17 C01 C02
+//@ props: C17 C01~ C02~
 //@ peer: yes
 //@ timeout: 1500
 //@ fns: server::task::SessionTask::handle_frame, SessionTask::reply_with_error_generic, common::function::FunctionCode::get
@@ -161,7 +161,7 @@ fn c17_glue_unknown_function_q() {
     unknown_function(0x2B);
 }
 
-//@ props: C17 C01 C02
+//@ props: C17 C01~ C02~
 //@ peer: yes
 //@ tier: thorough
 //@ timeout: 3600
@@ -177,7 +177,7 @@ fn c17_glue_unknown_function_t() {
     }
 }
 
-//@ props: C17 C01 C02
+//@ props: C17 C01~ C02~
 //@ peer: yes
 //@ timeout: 1500
 //@ fns: server::task::SessionTask::handle_frame (empty body)
@@ -198,7 +198,7 @@ fn c17_glue_empty_frame() {
     std::mem::forget((io, s, ctx, h));
 }
 
-//@ props: C17 C02 C01
+//@ props: C17 C02~ C01~
 //@ peer: yes
 //@ timeout: 2400
 //@ fns: server::task::SessionTask::handle_frame (broadcast arm), server::request::Request::into_broadcast_request, BroadcastRequest::execute, server::handler::ServerHandlerMap::iter_mut
@@ -226,7 +226,7 @@ fn c17_glue_broadcast_write() {
     std::mem::forget((io, s, ctx, h1, h2));
 }
 
-//@ props: C17 C02
+//@ props: C17 C02~
 //@ peer: yes
 //@ timeout: 2400
 //@ fns: server::task::SessionTask::handle_frame (broadcast arm, reads and errors), SessionTask::reply_with_error_generic (broadcast guard)
@@ -267,7 +267,7 @@ impl AuthorizationHandler for Policy {
     }
 }
 
-//@ props: C08 C02 C01
+//@ props: C08 C02~ C01~
 //@ peer: yes
 //@ timeout: 2400
 //@ fns: server::task::SessionTask::handle_frame (authorization block), AuthorizationType::is_authorized, SessionTask::reply_with_error
